@@ -29,13 +29,13 @@ func sweepBList() []Case {
 func surfaceSize(p plan, s string) int {
 	switch s {
 	case "a":
-		return len(sweepAList()) + p.pick(480, 9600)
+		return len(sweepAList()) + p.pick(480, 12000)
 	case "b":
-		return len(sweepBList()) + p.pick(960, 19200)
+		return len(sweepBList()) + p.pick(960, 24000)
 	case "c":
-		return p.pick(2112, 42240)
+		return p.pick(2112, 52800)
 	case "d":
-		return p.pick(1512, 30240)
+		return p.pick(1512, 37800)
 	case "f":
 		return len(fixedCases())
 	}
